@@ -594,6 +594,35 @@ def oracle_inplace_views(rng):
     return None
 
 
+def oracle_value_layouts(rng):
+    """assigning numbers to a Variable is assignment by INDEX whatever the memory layout of the array that carries them (transposed, Fortran-ordered,
+    reversed or strided views, integer dtype): V.value and every Expression over V evaluate as numpy does on those numbers"""
+    c = cl()
+    with warnings.catch_warnings():
+        warnings.simplefilter('ignore')
+        X = c.Variable(shape=(2, 3), name='lay_X')
+        x = c.Variable(shape=(4,), name='lay_x')
+        W = np.arange(1.0, 7.0).reshape(3, 2) / 2.0
+        x0 = np.array([0.5, -1.0, 2.0, 3.5])
+        M = np.array([[1.0, 2.0], [0.0, -1.0], [3.0, 0.5]])
+        for name, arrX, arrx in (('transposed / reversed views', W.T, x0[::-1]), ('Fortran-ordered copy / strided view', np.asfortranarray(W.T), np.arange(8.0)[::2]),
+                                 ('integer dtype', (2 * W.T).astype(int), np.array([1, 2, 3, 4])), ('contiguous copies', np.ascontiguousarray(W.T), x0.copy())):
+            X.value = arrX
+            x.value = arrx
+            nX, nx = np.array(arrX, dtype=float), np.array(arrx, dtype=float)
+            for what, fe, fn in (('X.value', lambda: X, lambda: nX), ('2 X + 1', lambda: 2 * X + 1.0, lambda: 2 * nX + 1.0), ('X @ M', lambda: X @ M, lambda: nX @ M),
+                                 ('sum(X, axis=0)', lambda: c.sum(X, axis=0), lambda: nX.sum(axis=0)), ('x.value', lambda: x, lambda: nx),
+                                 ('a @ x', lambda: np.array([1.0, -2.0, 0.5, 3.0]) @ x, lambda: np.array([1.0, -2.0, 0.5, 3.0]) @ nx),
+                                 ('weighted_sum_exp', lambda: c.weighted_sum_exp(np.array([1.0, 2.0, 0.5, 1.0]), 0.25 * x), lambda: np.sum(np.array([1.0, 2.0, 0.5, 1.0]) * np.exp(0.25 * nx)))):
+                got = np.asarray(fe().value, dtype=float)
+                want = np.asarray(fn(), dtype=float)
+                if got.shape != want.shape and got.size == want.size:
+                    got = got.reshape(want.shape)
+                if got.shape != want.shape or not np.allclose(got, want):
+                    return 'after assigning %s to the Variables, %s evaluates to %s; numpy on the assigned numbers gives %s' % (name, what, got.tolist(), want.tolist())
+    return None
+
+
 def probe_fixed_defects():
     """replays of the repaired defects F2, F3, F9"""
     c = cl()
@@ -760,7 +789,7 @@ def run(ctx):
                         '(the numpy-differential oracle passed on this program)' % (cases[idx][0], cases[idx][2][:10], model_out[:2500]),
                         inputs={'program': cases[idx][0]}, failing_input_found=False)
     for name, f in (('extra_numpy_stream', lambda: extra_numpy_stream(ctx.rng)), ('fixed_defect_probes', probe_fixed_defects),
-                    ('are_equivalent', lambda: oracle_equiv(ctx.rng)), ('inplace_views', lambda: oracle_inplace_views(ctx.rng))):
+                    ('are_equivalent', lambda: oracle_equiv(ctx.rng)), ('inplace_views', lambda: oracle_inplace_views(ctx.rng)), ('value_layouts', lambda: oracle_value_layouts(ctx.rng))):
         why = f()
         ctx.suites[name] = {'cases': 1, 'failure': why}
         ctx.evaluations += 1
